@@ -229,7 +229,11 @@ def main() -> int:
         rng.shuffle(rest)
         sel += rest[:60]
     else:
-        sel = full
+        # every row with at most two simultaneous faults + a large random sample of the rest of the product
+        sel = [c for c in full if sum(1 for k, v in c[3].items() if v != "ok") <= 2]
+        rest = [c for c in full if sum(1 for k, v in c[3].items() if v != "ok") > 2]
+        rng.shuffle(rest)
+        sel += rest[:4000]
     for k, (pair_name, sname, upload, faults) in enumerate(sel):
         plat, board, valid = PAIRS[pair_name]
         port = ports[k % len(ports)]
@@ -301,12 +305,12 @@ def main() -> int:
                           f"effects {kinds(r.get('effects', []))[:6]}", {"script.py": cfg["script"]}, key="repeat-differs")
     rep.rule = ("product of (platform,board) pairs {valid, unknown platform, unknown board, mismatched} x scripts {no lib, "
                 "servo, parallel LCD, I2C LCD, all, non-ASCII, rejected-by-transpiler} x upload {True, False, default} x "
-                "fault points {pio discovery: ok/missing/non-zero, mkdtemp, write main.cpp, write platformio.ini, build, "
-                "upload}; quick = all fault-free and single-fault rows + 60 random multi-fault rows, thorough = full "
-                "product. Each row runs target() in a child with recording fakes; the ordered effect log is checked "
+                "fault points {pio discovery: ok/missing/non-zero/permission/oserror, mkdtemp, write main.cpp, write platformio.ini, build and "
+                "upload: ok/exit 1/killed by a signal}; same-path and repeat-call histories; quick = all fault-free and single-fault rows + 60 random multi-fault rows, thorough = every row "
+                "with at most two simultaneous faults + 4000 random rows of the rest of the product. Each row runs target() in a child with recording fakes; the ordered effect log is checked "
                 "against the specification. non-trivial = at least one effect or an exception observed")
     rep.assumptions = ["subprocess.run, tempfile.mkdtemp, Path.write_text/mkdir are the only effect channels (audit hook watches Popen/os.system)"]
-    return rep.finish(min_distinct=50, exhaustive=t == "thorough")
+    return rep.finish(min_distinct=50, exhaustive=False)
 
 
 KNOWN = {}
